@@ -19,6 +19,7 @@ set_option linter.unusedSectionVars false
 set_option linter.unusedVariables false
 
 variable {F : Type} [Scalar F]
+variable {fa : List (Nat × Nat)}
 
 theorem pw_get' {α : Type} {R : α → α → Prop} {as bs : List α} (h : Hk.PW R as bs) {j : Nat} {b : α}
     (hb : bs[j]? = some b) : ∃ a, as[j]? = some a ∧ R a b := by
@@ -62,24 +63,24 @@ theorem kept_stallProbeDue (l : FLink F) : Kept l l.stallProbeDue.1 := by
 /-- `forward_via_connection` on one link, exactly: kept and no failure consumed, or — batch threshold
 reached and an injected failure pending for the link's conn id — reset, that failure consumed. -/
 theorem fwdLink_exact (l : FLink F) (pkt : Link.Bytes) (seq : Option Nat) (now : Nat) (fn : List Nat) :
-    (Kept l (Hk.fwdLink l pkt seq now fn).1 ∧ (Hk.fwdLink l pkt seq now fn).2.2 = fn ∧
+    (Kept l (Hk.fwdLink fa l pkt seq now fn).1 ∧ (Hk.fwdLink fa l pkt seq now fn).2.2 = fn ∧
       ¬ ((l.queueDataPacket pkt seq now).2 = true ∧ fn.contains l.core.connId = true)) ∨
-    (Reset (Hk.fwdLink l pkt seq now fn).1 ∧ (Hk.fwdLink l pkt seq now fn).1.core.connId = l.core.connId ∧
+    (Reset (Hk.fwdLink fa l pkt seq now fn).1 ∧ (Hk.fwdLink fa l pkt seq now fn).1.core.connId = l.core.connId ∧
       (l.queueDataPacket pkt seq now).2 = true ∧ fn.contains l.core.connId = true ∧
-      (Hk.fwdLink l pkt seq now fn).2.2 = fn.erase l.core.connId) := by
+      (Hk.fwdLink fa l pkt seq now fn).2.2 = fn.erase l.core.connId) := by
   cases hq : (l.queueDataPacket pkt seq now).2
-  · have e : Hk.fwdLink l pkt seq now fn = ((l.queueDataPacket pkt seq now).1, [], fn) := by
+  · have e : Hk.fwdLink fa l pkt seq now fn = ((l.queueDataPacket pkt seq now).1, [], fn) := by
       unfold Hk.fwdLink; rw [hq]; rfl
     rw [e]
     exact Or.inl ⟨kept_queue l pkt seq now, rfl, fun h => by cases h.1⟩
   · have hid : (l.queueDataPacket pkt seq now).1.core.connId = l.core.connId := rfl
     obtain ⟨h1, h2⟩ := Hk.sendBatch_cases (l.queueDataPacket pkt seq now).1 now fn
-    have e : Hk.fwdLink l pkt seq now fn =
-        (if (sendConnectionBatch (l.queueDataPacket pkt seq now).1 now fn).2.2.1 then
-            (sendConnectionBatch (l.queueDataPacket pkt seq now).1 now fn).1
-          else (sendConnectionBatch (l.queueDataPacket pkt seq now).1 now fn).1.markForRecovery,
-         (sendConnectionBatch (l.queueDataPacket pkt seq now).1 now fn).2.1,
-         (sendConnectionBatch (l.queueDataPacket pkt seq now).1 now fn).2.2.2) := by
+    have e : Hk.fwdLink fa l pkt seq now fn =
+        (if (sendConnectionBatch fa (l.queueDataPacket pkt seq now).1 now fn).2.2.1 then
+            (sendConnectionBatch fa (l.queueDataPacket pkt seq now).1 now fn).1
+          else (sendConnectionBatch fa (l.queueDataPacket pkt seq now).1 now fn).1.markForRecovery,
+         (sendConnectionBatch fa (l.queueDataPacket pkt seq now).1 now fn).2.1,
+         (sendConnectionBatch fa (l.queueDataPacket pkt seq now).1 now fn).2.2.2) := by
       unfold Hk.fwdLink; rw [hq]; rfl
     rw [e]
     rcases h2 with ⟨ok, hfn⟩ | ⟨ok, hc, hfn⟩
@@ -104,9 +105,9 @@ theorem fwdLink_exact (l : FLink F) (pkt : Link.Bytes) (seq : Option Nat) (now :
 
 /-- The same for one probe visit. -/
 theorem probeLink_exact (l : FLink F) (pkt : Link.Bytes) (seq : Option Nat) (now : Nat) (fn : List Nat) :
-    (Kept l (Hk.probeLink l pkt seq now fn).1 ∧ (Hk.probeLink l pkt seq now fn).2.2 = fn) ∨
-    (Reset (Hk.probeLink l pkt seq now fn).1 ∧ (Hk.probeLink l pkt seq now fn).1.core.connId = l.core.connId ∧
-      fn.contains l.core.connId = true ∧ (Hk.probeLink l pkt seq now fn).2.2 = fn.erase l.core.connId) := by
+    (Kept l (Hk.probeLink fa l pkt seq now fn).1 ∧ (Hk.probeLink fa l pkt seq now fn).2.2 = fn) ∨
+    (Reset (Hk.probeLink fa l pkt seq now fn).1 ∧ (Hk.probeLink fa l pkt seq now fn).1.core.connId = l.core.connId ∧
+      fn.contains l.core.connId = true ∧ (Hk.probeLink fa l pkt seq now fn).2.2 = fn.erase l.core.connId) := by
   have hp := kept_stallProbeDue l
   unfold Hk.probeLink
   split
@@ -135,7 +136,7 @@ theorem SendX.of_kept {fn fn' : List Nat} {a b c : FLink F} (h1 : Kept a b) (h2 
   · exact Or.inr ⟨h, hid.trans h1.connId, by rw [← h1.connId]; exact hlt⟩
 
 theorem fwdLink_sendX (l : FLink F) (pkt : Link.Bytes) (seq : Option Nat) (now : Nat) (fn : List Nat) :
-    SendX fn (Hk.fwdLink l pkt seq now fn).2.2 l (Hk.fwdLink l pkt seq now fn).1 := by
+    SendX fn (Hk.fwdLink fa l pkt seq now fn).2.2 l (Hk.fwdLink fa l pkt seq now fn).1 := by
   rcases fwdLink_exact l pkt seq now fn with ⟨a, -, -⟩ | ⟨a, b, -, d, e⟩
   · exact Or.inl a
   · exact Or.inr ⟨a, b, by rw [e]; exact Hk.count_erase_lt fn _ d⟩
@@ -157,7 +158,7 @@ def ProbeX (fn fn' : List Nat) (l l' : FLink F) : Prop :=
 
 theorem stallProbes_px (pkt : Sys.Bytes) (seq : Option Nat) (now sel : Nat) (ls : List (FLink F)) (i : Nat)
     (fn : List Nat) :
-    Hk.PW (ProbeX fn (stallProbesGo pkt seq now sel ls i fn).2.2) ls (stallProbesGo pkt seq now sel ls i fn).1 := by
+    Hk.PW (ProbeX fn (stallProbesGo fa pkt seq now sel ls i fn).2.2) ls (stallProbesGo fa pkt seq now sel ls i fn).1 := by
   induction ls generalizing i fn with
   | nil => exact .nil
   | cons l rest ih =>
@@ -169,10 +170,10 @@ theorem stallProbes_px (pkt : Sys.Bytes) (seq : Option Nat) (now sel : Nat) (ls 
         simp only [Bool.or_eq_true, Bool.not_eq_true', not_or] at hcond
         simpa using hcond.2
       obtain ⟨-, p2⟩ := Hk.probeLink_step false none l pkt seq now fn hconn
-      obtain ⟨-, h2⟩ := Hk.stallProbes_pw false none pkt seq now sel rest (i + 1) (Hk.probeLink l pkt seq now fn).2.2
+      obtain ⟨-, h2⟩ := Hk.stallProbes_pw false none pkt seq now sel rest (i + 1) (Hk.probeLink fa l pkt seq now fn).2.2
       dsimp only
       refine .cons (Or.inr ⟨hconn, ?_⟩) ((ih (i + 1) _).mono (fun a b h => ?_))
-      · have hx : SendX fn (Hk.probeLink l pkt seq now fn).2.2 l (Hk.probeLink l pkt seq now fn).1 := by
+      · have hx : SendX fn (Hk.probeLink fa l pkt seq now fn).2.2 l (Hk.probeLink fa l pkt seq now fn).1 := by
           rcases probeLink_exact l pkt seq now fn with ⟨a, -⟩ | ⟨a, b, d, e⟩
           · exact Or.inl a
           · exact Or.inr ⟨a, b, by rw [e]; exact Hk.count_erase_lt fn _ d⟩
@@ -235,7 +236,7 @@ theorem client_px (s : Sys F) (pkt : Sys.Bytes) (now : Nat) :
       unfold Hk.clientFwd
       dsimp only
       split
-      · have p1 := stallProbes_px pkt (Codec.getSrtSequenceNumberS pkt) now i
+      · have p1 := stallProbes_px (fa := (forwardVia (runSelect s now).1 i pkt (Codec.getSrtSequenceNumberS pkt) now).1.failAfter) pkt (Codec.getSrtSequenceNumberS pkt) now i
           (forwardVia (runSelect s now).1 i pkt (Codec.getSrtSequenceNumberS pkt) now).1.links 0
           (forwardVia (runSelect s now).1 i pkt (Codec.getSrtSequenceNumberS pkt) now).1.failNext
         obtain ⟨-, p2⟩ := Hk.stallProbes_pw false none pkt (Codec.getSrtSequenceNumberS pkt) now i
@@ -258,8 +259,8 @@ theorem count_erase_ne (fn : List Nat) (a c : Nat) (h : c ≠ a) : (fn.erase a).
 /-- The probe pass consumes an injected failure for conn id `c` only by resetting a link with that id. -/
 theorem stallProbes_consumed (pkt : Sys.Bytes) (seq : Option Nat) (now sel : Nat) (ls : List (FLink F)) (i : Nat)
     (fn : List Nat) (c : Nat)
-    (h : (stallProbesGo pkt seq now sel ls i fn).2.2.count c < fn.count c) :
-    ResetAt c ls (stallProbesGo pkt seq now sel ls i fn).1 := by
+    (h : (stallProbesGo fa pkt seq now sel ls i fn).2.2.count c < fn.count c) :
+    ResetAt c ls (stallProbesGo fa pkt seq now sel ls i fn).1 := by
   induction ls generalizing i fn with
   | nil => simp [stallProbesGo] at h
   | cons l rest ih =>
@@ -298,8 +299,8 @@ theorem forwardVia_consumed (s : Sys F) (sel : Nat) (pkt : Sys.Bytes) (seq : Opt
     obtain ⟨e1, e2, -, -⟩ := Hk.forwardVia_eq s sel pkt seq now l hl
     rw [e2] at h
     rw [e1]
-    have hget : (setAt s.links sel (Hk.fwdLink l pkt seq now s.failNext).1)[sel]? =
-        some (Hk.fwdLink l pkt seq now s.failNext).1 := by
+    have hget : (setAt s.links sel (Hk.fwdLink s.failAfter l pkt seq now s.failNext).1)[sel]? =
+        some (Hk.fwdLink s.failAfter l pkt seq now s.failNext).1 := by
       rw [Hk.getElem?_setAt, if_pos rfl, hl]; rfl
     rcases fwdLink_exact l pkt seq now s.failNext with ⟨-, e, -⟩ | ⟨a, b, -, d, e⟩
     · rw [e] at h; exact absurd h (Nat.lt_irrefl _)
@@ -311,7 +312,7 @@ theorem forwardVia_consumed (s : Sys F) (sel : Nat) (pkt : Sys.Bytes) (seq : Opt
 /-- The probe pass never touches a link that is not connected (in particular one that was just reset). -/
 theorem stallProbes_skip_down (pkt : Sys.Bytes) (seq : Option Nat) (now sel : Nat) (ls : List (FLink F)) (i : Nat)
     (fn : List Nat) (k : Nat) (l : FLink F) (hl : ls[k]? = some l) (hd : l.core.connected = false) :
-    (stallProbesGo pkt seq now sel ls i fn).1[k]? = some l := by
+    (stallProbesGo fa pkt seq now sel ls i fn).1[k]? = some l := by
   obtain ⟨l', h1, h2⟩ := (stallProbes_px pkt seq now sel ls i fn).get k l hl
   rcases h2 with rfl | ⟨hc, -⟩
   · exact h1
@@ -366,7 +367,7 @@ theorem client_consumed (s : Sys F) (pkt : Sys.Bytes) (now : Nat) (c : Nat)
             < s.failNext.count c
         · obtain ⟨l, l', a1, a2, a3, a4⟩ := hfwd h2
           exact ⟨i, l, l', a1, a2, stallProbes_skip_down _ _ _ _ _ _ _ i l' a3 a4.1.connected, a4⟩
-        · have h3 : (stallProbesGo pkt (Codec.getSrtSequenceNumberS pkt) now i
+        · have h3 : (stallProbesGo (forwardVia (runSelect s now).1 i pkt (Codec.getSrtSequenceNumberS pkt) now).1.failAfter pkt (Codec.getSrtSequenceNumberS pkt) now i
               (forwardVia (runSelect s now).1 i pkt (Codec.getSrtSequenceNumberS pkt) now).1.links 0
               (forwardVia (runSelect s now).1 i pkt (Codec.getSrtSequenceNumberS pkt) now).1.failNext).2.2.count c <
               (forwardVia (runSelect s now).1 i pkt (Codec.getSrtSequenceNumberS pkt) now).1.failNext.count c := by
@@ -444,7 +445,7 @@ consumed.  `m` is the chosen link as the selection pass left it: same liveness /
 theorem client_target_fn (s : Sys F) (pkt : Sys.Bytes) (now j : Nat) (l : FLink F) (hl : s.links[j]? = some l)
     (htgt : SelShell.clientTarget s pkt now = some j) :
     ∃ m, SelShell.liveAcct m = SelShell.liveAcct l ∧
-      Hk.FnLe (Hk.fwdLink m pkt (Codec.getSrtSequenceNumberS pkt) now s.failNext).2.2
+      Hk.FnLe (Hk.fwdLink s.failAfter m pkt (Codec.getSrtSequenceNumberS pkt) now s.failNext).2.2
         (handleSrtPacket s pkt now).1.failNext := by
   unfold SelShell.clientTarget at htgt
   cases hne : pkt.isEmpty
@@ -474,7 +475,8 @@ theorem client_target_fn (s : Sys F) (pkt : Sys.Bytes) (now j : Nat) (l : FLink 
     rw [hpass] at hm
     rw [Hk.handleSrtPacket_some s pkt now j hne hc htgt]
     obtain ⟨-, e2, -, -⟩ := Hk.forwardVia_eq (runSelect s now).1 j pkt (Codec.getSrtSequenceNumberS pkt) now m hm
-    rw [r3] at e2
+    have hfa : (runSelect s now).1.failAfter = s.failAfter := rfl
+    rw [r3, hfa] at e2
     refine ⟨m, hml, ?_⟩
     unfold Hk.clientFwd
     dsimp only
@@ -501,16 +503,16 @@ theorem client_target_fails (s : Sys F) (pkt : Sys.Bytes) (now j : Nat) (l l' : 
     | target _ h =>
       rcases fwdLink_exact l pkt (Codec.getSrtSequenceNumberS pkt) now s.failNext with ⟨-, -, hn⟩ | ⟨hrs, -, -, -, -⟩
       · exact absurd ⟨hq, hfn⟩ hn
-      · have hc : l'.core = (Hk.fwdLink l pkt (Codec.getSrtSequenceNumberS pkt) now s.failNext).1.core :=
+      · have hc : l'.core = (Hk.fwdLink s.failAfter l pkt (Codec.getSrtSequenceNumberS pkt) now s.failNext).1.core :=
           congrArg (·.core) h
-        have hqq : l'.queue = (Hk.fwdLink l pkt (Codec.getSrtSequenceNumberS pkt) now s.failNext).1.queue :=
+        have hqq : l'.queue = (Hk.fwdLink s.failAfter l pkt (Codec.getSrtSequenceNumberS pkt) now s.failNext).1.queue :=
           congrArg (·.queue) h
         exact ⟨⟨by rw [hc]; exact hrs.1.window, by rw [hc]; exact hrs.1.log, by rw [hqq]; exact hrs.1.queue,
           by rw [hc]; exact hrs.1.inFlight, by rw [hc]; exact hrs.1.connected⟩, by rw [hc]; exact hrs.2⟩
   · obtain ⟨m, hml, hle⟩ := client_target_fn s pkt now j l hl htgt
     -- forwarding on `m` and on `l` leave the same fault list
-    have h1 := congrArg (fun x => x.2.2) (SelShell.liveAcct_fwdLink m pkt (Codec.getSrtSequenceNumberS pkt) now s.failNext)
-    have h2 := congrArg (fun x => x.2.2) (SelShell.liveAcct_fwdLink l pkt (Codec.getSrtSequenceNumberS pkt) now s.failNext)
+    have h1 := congrArg (fun x => x.2.2) (SelShell.liveAcct_fwdLink (fa := s.failAfter) m pkt (Codec.getSrtSequenceNumberS pkt) now s.failNext)
+    have h2 := congrArg (fun x => x.2.2) (SelShell.liveAcct_fwdLink (fa := s.failAfter) l pkt (Codec.getSrtSequenceNumberS pkt) now s.failNext)
     dsimp only at h1 h2
     rw [hml, h2] at h1
     rw [← h1] at hle
